@@ -15,6 +15,7 @@ PROPERTY = 'C13'
 LEVEL = 'other'
 I = Rat.const(1j)
 Z = Rat.csym('z')
+CURRENT_IT = [None]
 
 
 def run(ctx):
@@ -43,6 +44,7 @@ def run(ctx):
 
         def th(it, cname=cname, n=n, seen=seen):
             seen.clear()
+            CURRENT_IT[0] = it
             P = cpoints(n)
             seg = it.construct('path.' + cname, *P)
             r = it.call_method(seg, 'radialrange', Z)
@@ -62,8 +64,17 @@ def run(ctx):
             if ok is not True:
                 probs.append('polynomial is not d/dt |B(t)-z|^2: ' + d)
             for tag, items, key in (r[0], r[1]):
-                if key is None or getattr(key, 'k', None) != 0:
-                    probs.append('%s is not taken by distance (key=itemgetter(0))' % tag)
+                probe_ok = False
+                if key is not None:
+                    # whatever form the key has, it must select the distance component of a (distance, t) pair
+                    try:
+                        from svtstatic import builtins_model as bm
+                        sel = bm._keyval(CURRENT_IT[0], key, (Rat.sym('DPROBE'), Rat.sym('TPROBE')))
+                        probe_ok = to_rat(sel).equals(Rat.sym('DPROBE'))
+                    except Exception:
+                        probe_ok = False
+                if not probe_ok:
+                    probs.append('%s is not taken by distance (the key does not select the first component of (distance, t))' % tag)
                 got = sorted((to_rat(x[0]).key(), to_rat(x[1]).key()) for x in items)
                 exp = sorted((apply_fn('abs', B(t_) - Z).key(), to_rat(t_).key()) for t_ in (Rat.const(0), Rat.const(1), Rat.sym('rho')))
                 if got != exp:
